@@ -74,7 +74,89 @@ type query struct {
 	failed bool
 }
 
+// keyQuery: the tree keys the implementation reported for one field
+type keyQuery struct {
+	ty, field, pi []string
+	pre           []any
+	ks, kd, ke    *big.Int // nil = error / not observed (kePresent tells which)
+	ksErr, kdErr  bool
+	keSeen        bool
+}
+
+// primTable: primitive calls of the case's hasher made by the HARNESS on the real hasher (HashBytes of every
+// string part, Hash of every list of part hashes): what the Coq model may look up, never a composite answer
+type primTable struct {
+	h      merklize.Hasher
+	bytes  map[string]*big.Int // nil value = the primitive failed
+	hash   map[string]hashRec
+	order  []string
+	horder []string
+}
+type hashRec struct {
+	in  []*big.Int
+	out *big.Int
+}
+
+func newPrimTable(h merklize.Hasher) *primTable {
+	return &primTable{h: h, bytes: map[string]*big.Int{}, hash: map[string]hashRec{}}
+}
+
+func (t *primTable) addPath(parts []any) {
+	var ks []*big.Int
+	for _, p := range parts {
+		switch v := p.(type) {
+		case string:
+			z, seen := t.bytes[v]
+			if !seen {
+				var err error
+				z, err = t.h.HashBytes([]byte(v))
+				if err != nil {
+					z = nil
+				}
+				t.bytes[v] = z
+				t.order = append(t.order, v)
+			}
+			if z == nil {
+				return
+			}
+			ks = append(ks, z)
+		case int:
+			ks = append(ks, big.NewInt(int64(v)))
+		}
+	}
+	var sb strings.Builder
+	for _, k := range ks {
+		sb.WriteString(k.String() + ",")
+	}
+	if _, seen := t.hash[sb.String()]; !seen {
+		out, err := t.h.Hash(ks)
+		if err != nil {
+			out = nil
+		}
+		t.hash[sb.String()] = hashRec{in: ks, out: out}
+		t.horder = append(t.horder, sb.String())
+	}
+}
+
+func (t *primTable) coq(f *coqgen.File) string {
+	var hs, bs []string
+	for _, k := range t.horder {
+		r := t.hash[k]
+		var in []string
+		for _, x := range r.in {
+			in = append(in, coqgen.Limbs(x))
+		}
+		hs = append(hs, fmt.Sprintf("([%s], %s)", strings.Join(in, ";"), coqgen.OptLimbs(r.out)))
+	}
+	for _, s := range t.order {
+		bs = append(bs, fmt.Sprintf("(%s, %s)", f.Str(s), coqgen.OptLimbs(t.bytes[s])))
+	}
+	return fmt.Sprintf("(mkrh %s [%s] [%s])", coqgen.Limbs(t.h.Prime()), strings.Join(hs, ";\n    "), strings.Join(bs, ";\n    "))
+}
+
 type ccase struct {
+	keys    []keyQuery
+	prims   *primTable
 	in      *caseInput
 	entries []mzrun.EntryView
 	eClass  string // ok | err | skip
@@ -354,6 +436,11 @@ func (d *drv) runCase(in *caseInput) {
 	o := merklize.Options{DocumentLoader: d.loader, Hasher: hs.h}
 	d.cur = &o
 	defer func() { d.cur = nil }()
+	eff := hs.h
+	if eff == nil {
+		eff = merklize.PoseidonHasher{}
+	}
+	c.prims = newPrimTable(eff)
 	if in.Kind == "switch" && in.Prime != nil {
 		// the same context bytes were resolved before, when the loader served other content:
 		// the resolvers must not remember that answer
@@ -561,6 +648,21 @@ func (d *drv) runCase(in *caseInput) {
 			}
 			ks, es := sp.MtEntry()
 			dp, ed := mz.ResolveDocPath(path)
+			// observations for the Coq model of the keys (JsonLD/KeyModel.v)
+			kq := keyQuery{ty: []string{lf.TypeTerm}, field: lf.Rel, pi: lf.DocPath, pre: lf.Parts[:lf.PrefixLen], ks: ks, ksErr: es != nil}
+			c.prims.addPath(lf.Parts)
+			if ed == nil {
+				kd0, e0 := dp.MtEntry()
+				kq.kd, kq.kdErr = kd0, e0 != nil
+				if e, err := mz.Entry(dp); err == nil {
+					if ke0, err := e.KeyMtEntry(); err == nil {
+						kq.ke, kq.keSeen = ke0, true
+					}
+				}
+			} else {
+				kq.kdErr = true
+			}
+			c.keys = append(c.keys, kq)
 			switch {
 			case es != nil:
 				d.fail(in, "c11-key-mismatch", fmt.Sprintf("schema-side path %v does not hash: %v", sp.Parts(), es), path)
@@ -1000,7 +1102,25 @@ func (d *drv) caseCoq(ji *jintern, id int, c *ccase) string {
 			qs = append(qs, fmt.Sprintf("QTypeOf %s %s", strList(f, q.a), sobs))
 		}
 	}
-	return fmt.Sprintf("mkcc %d [%s] %s %s\n  %s\n  [%s]", id, strings.Join(ld, "; "), ji.doc(c.in.Doc), ji.doc(c.in.Ctx), es, strings.Join(qs, ";\n   "))
+	kobs := func(z *big.Int, isErr, seen bool) string {
+		switch {
+		case isErr:
+			return "KErr"
+		case z == nil || !seen:
+			return "KNone"
+		default:
+			return "(KOk " + coqgen.Limbs(z) + ")"
+		}
+	}
+	for _, k := range c.keys {
+		qs = append(qs, fmt.Sprintf("QKeys %s %s %s %s %s %s %s", strList(f, k.ty), strList(f, k.field), mzrun.PartsCoq(f, k.pre), strList(f, k.pi),
+			kobs(k.ks, k.ksErr, true), kobs(k.kd, k.kdErr, true), kobs(k.ke, false, k.keSeen)))
+	}
+	prims := "(mkrh [] [] [])"
+	if c.prims != nil {
+		prims = c.prims.coq(f)
+	}
+	return fmt.Sprintf("mkcc %d %s [%s] %s %s\n  %s\n  [%s]", id, prims, strings.Join(ld, "; "), ji.doc(c.in.Doc), ji.doc(c.in.Ctx), es, strings.Join(qs, ";\n   "))
 }
 
 const shardSize = 40
@@ -1012,7 +1132,7 @@ func (d *drv) writeShards() error {
 		if hi > n {
 			hi = n
 		}
-		f := coqgen.NewFile("From GSP Require Import Value.Run RDF.Model RDF.Run JsonLD.Model JsonLD.Resolvers JsonLD.Run.")
+		f := coqgen.NewFile("From GSP Require Import Value.Run RDF.Model RDF.Run JsonLD.Model JsonLD.Resolvers JsonLD.KeyModel JsonLD.Run.")
 		ji := &jintern{f: f, docs: map[string]string{}}
 		name := filepath.Join(d.cfg.OutDir, fmt.Sprintf("cases_C11_%03d.v", s))
 		var cs []string
